@@ -702,14 +702,13 @@ def lift(x):
 
 
 def _symbolic(v):
-    if isinstance(v, Sym):
-        return not v.is_const()
-    return isinstance(v, SymB)
+    # Sym constants count as symbolic on purpose: they carry exact rationals, and handing them to real
+    # LAPACK/ufuncs would silently replace exact arithmetic by rounded float arithmetic
+    return isinstance(v, (Sym, SymB))
 
 
 def has_sym(*xs):
-    """is any argument genuinely symbolic?  (Sym constants count as concrete: arrays holding only
-    constants are cast back to float64 before real LAPACK/ufunc calls)"""
+    """does any argument hold a Sym/SymB?"""
     for x in xs:
         if _symbolic(x):
             return True
